@@ -63,7 +63,7 @@ func main() {
 			genCoTrees(w, r.Fork(), a.Tier)
 		}
 		if only == "" || only == "ctx" {
-			nc := 300
+			nc := 200
 			if a.Tier == "thorough" {
 				nc = 6000
 			}
